@@ -74,23 +74,52 @@ func ioDesc(io circuit.IO) string {
 
 // c05One runs one program on one input pair in both modes.
 func c05One(res *Result, src string, xs, ys string, record *[]stEv, seedv uint64, wire ...*[]swEv) {
+	c05OneV(res, src, []string{xs}, []string{ys}, record, seedv, wire...)
+}
+
+// flattenInputs splits the packed value of each argument into one value per compound member, as Compute takes them
+func flattenInputs(circ *circuit.Circuit, vals []*big.Int) []*big.Int {
+	var out []*big.Int
+	for i, in := range circ.Inputs {
+		if len(in.Compound) == 0 {
+			out = append(out, vals[i])
+			continue
+		}
+		ofs := uint(0)
+		for _, m := range in.Compound {
+			w := uint(m.Type.Bits)
+			mask := new(big.Int).Sub(new(big.Int).Lsh(big.NewInt(1), w), big.NewInt(1))
+			out = append(out, new(big.Int).And(new(big.Int).Rsh(vals[i], ofs), mask))
+			ofs += w
+		}
+	}
+	return out
+}
+
+// c05OneV: one program, one input pair (one string per argument member), both modes
+func c05OneV(res *Result, src string, xv, yv []string, record *[]stEv, seedv uint64, wire ...*[]swEv) {
+	xs, ys := strings.Join(xv, ","), strings.Join(yv, ",")
 	circ, err := compileMPCL(src, nil)
 	if err != nil {
+		res.Sample = "compile: " + err.Error()
 		res.Class = "rejected"
 		return
 	}
-	x, err := circ.Inputs[0].Parse([]string{xs})
+	x, err := circ.Inputs[0].Parse(xv)
 	if err != nil {
+		res.Sample = err.Error()
 		res.Class = "rejected"
 		return
 	}
-	y, err := circ.Inputs[1].Parse([]string{ys})
+	y, err := circ.Inputs[1].Parse(yv)
 	if err != nil {
+		res.Sample = err.Error()
 		res.Class = "rejected"
 		return
 	}
-	want, err := circ.Compute([]*big.Int{x, y})
+	want, err := circ.Compute(flattenInputs(circ, []*big.Int{x, y}))
 	if err != nil {
+		res.Sample = "compute: " + err.Error()
 		res.Class = "rejected"
 		return
 	}
@@ -119,7 +148,7 @@ func c05One(res *Result, src string, xs, ys string, record *[]stEv, seedv uint64
 			*record = append(*record, ev)
 		}
 	}
-	sr := runStream(src, []string{xs}, []string{ys}, sessOpts{ot: "co", randSeed: seedv, corruptAt: -1, record: len(wire) > 0 && wire[0] != nil})
+	sr := runStream(src, xv, yv, sessOpts{ot: "co", randSeed: seedv, corruptAt: -1, record: len(wire) > 0 && wire[0] != nil})
 	if record != nil {
 		ssa.VerifStreamHook = nil
 		c05HookMu.Unlock()
@@ -294,7 +323,7 @@ func c05Main(args []string) error {
 			return err
 		}
 		res := &Result{Case: 0, Nontrivial: true}
-		c05One(res, string(src), args[2], args[3], nil, uint64(seed()))
+		c05OneV(res, string(src), strings.Split(args[2], ","), strings.Split(args[3], ","), nil, uint64(seed()))
 		b, _ := json.Marshal(res)
 		fmt.Println(string(b))
 		return nil
@@ -407,6 +436,24 @@ func c05Main(args []string) error {
 	}
 	for i, t := range pgTemplates {
 		run(t, tmplArgs[i][0], tmplArgs[i][1], 3, "template")
+	}
+	// struct arguments and results, arrays of arrays, booleans: the argument and type transfer to the evaluator
+	for i, t := range pgStructTemplates {
+		for k := 0; k < 4; k++ {
+			res := &Result{Case: idx, Nontrivial: true}
+			xv, yv := t.inputs(rng)
+			c05OneV(res, t.src, xv, yv, nil, uint64(seed())<<32+uint64(idx))
+			if res.Class == "compared" {
+				res.Class = "struct-template"
+			} else if res.Class == "rejected" {
+				res.drift("struct template %d does not compile or its inputs do not parse (%v | %v)", i, xv, yv)
+			}
+			if len(res.Viol) > 0 {
+				res.Sample = t.src
+			}
+			idx++
+			out.put(res)
+		}
 	}
 	u8 := pgScalar("a", 8, false)
 	cacheArgs := [][2]pgVar{{pgArray("a", 8), u8}, {pgArray("a", 8), u8}, {u16, u16}}
